@@ -127,10 +127,14 @@ def recase(s, mode):
 
 # ---------------------------------------------------------------------------------------------- strategies
 @st.composite
-def solution(draw, n, redox_ok, min_groups=2, max_groups=6):
+def solution(draw, n, redox_ok, min_groups=2, max_groups=6, dbname=DB):
     groups = dict(INERT_GROUPS)
     if redox_ok:
         groups.update(REDOX_GROUPS)
+    if dbname != DB:
+        master = dbparse.load(dbname).master
+        groups = {g: [v for v in vs if all(el in master for el, _ in v)] for g, vs in groups.items()}
+        groups = {g: vs for g, vs in groups.items() if vs}
     names = draw(st.lists(st.sampled_from(sorted(groups)), min_size=min_groups, max_size=max_groups, unique=True))
     if "Alk" in names and "C" in names:
         names = [g for g in names if g != "C"]      # alkalinity and carbon are alternatives (both: pH is adjusted)
@@ -226,11 +230,15 @@ PLAIN_SPEC = {"def": "mol/kgw", "per": None}
 
 
 @st.composite
-def eq_phases(draw, n, buffer_ok=True):
+def eq_phases(draw, n, buffer_ok=True, dbname=DB):
     groups = draw(st.lists(st.integers(0, len(EQ_GROUPS) - 1), min_size=1, max_size=4, unique=True))
     ph = []
+    db = dbparse.load(dbname)
     for g in groups:
         names, kind = EQ_GROUPS[g]
+        names = [x for x in names if db.phase(x) is not None]
+        if not names:
+            continue
         name = draw(st.sampled_from(names))
         if kind == "gas":
             si = draw(uni(-3.5, -0.5, 3))
@@ -326,8 +334,11 @@ def model(draw, kind=None, want_mix=False, nsol=None):
     nsol = nsol or draw(st.integers(1, 3))
     redox_ok = kind == "spec" and not want_mix
     numbers = draw(st.lists(st.integers(0, 30), min_size=nsol + 1, max_size=nsol + 1, unique=True))
-    sols = [draw(solution(numbers[i], redox_ok)) for i in range(nsol)]
-    m = {"db": DB, "kind": kind, "sols": sols, "eq": None, "rx": None, "ex": None, "su": None, "gas": None, "kin": None,
+    # other databases (other gram-formula-weight tables: Alkalinity 50.05 as a number, N(5) as NO3, ...) where the
+    # reactant pools exist in them
+    dbname = draw(st.sampled_from([DB, DB, DB, "wateq4f.dat", "Amm.dat"])) if kind != "gas" else DB
+    sols = [draw(solution(numbers[i], redox_ok, dbname=dbname)) for i in range(nsol)]
+    m = {"db": dbname, "kind": kind, "sols": sols, "eq": None, "rx": None, "ex": None, "su": None, "gas": None, "kin": None,
          "save": None, "st2": None, "mixn": draw(st.integers(0, 30))}
     # what enters the reaction of simulation 1
     if want_mix or (kind != "spec" and nsol > 1 and draw(st.booleans())):
@@ -345,7 +356,7 @@ def model(draw, kind=None, want_mix=False, nsol=None):
     if kind == "batch":
         which = draw(st.sampled_from(["eq", "rx", "both"]))
         if which in ("eq", "both"):
-            m["eq"] = draw(eq_phases(rn[0]))
+            m["eq"] = draw(eq_phases(rn[0], dbname=dbname))
         if which in ("rx", "both"):
             m["rx"] = draw(reaction(rn[1]))
     elif kind == "exch":
@@ -359,7 +370,7 @@ def model(draw, kind=None, want_mix=False, nsol=None):
     if kind in ("exch", "surf", "gas", "kin") and draw(st.integers(0, 2)) == 0:
         # a second reactant of another kind
         if draw(st.booleans()):
-            m["eq"] = draw(eq_phases(rn[0]))
+            m["eq"] = draw(eq_phases(rn[0], dbname=dbname))
         else:
             m["rx"] = draw(reaction(rn[1]))
     has_reaction = kind != "spec" or len(m["src"]) > 1 or m["src"][0][1] != 1.0
@@ -376,7 +387,7 @@ def model(draw, kind=None, want_mix=False, nsol=None):
         if r == 0 or nsol == 0:
             st2["rx"] = draw(reaction(rn[6]))
         elif r == 1:
-            st2["eq"] = draw(eq_phases(rn[7]))
+            st2["eq"] = draw(eq_phases(rn[7], dbname=dbname))
         else:
             other = sols[draw(st.integers(0, nsol - 1))]["n"]
             st2["src"] = [[m["save"], draw(uni(0.1, 1.5, 2))], [other, draw(uni(0.1, 1.5, 2))]]
@@ -441,7 +452,7 @@ def case(draw, fam=None, kind=None):
         c["xf"]["case"] = draw(st.lists(st.integers(0, 3), min_size=12, max_size=12))
     elif fam == "W":
         # never 1 (Hypothesis likes the simple value): |log10 f| in [0.02, 3]
-        lg = draw(st.floats(0.02, 3.0)) * draw(st.sampled_from([-1.0, 1.0]))
+        lg = draw(st.integers(2, 300)) / 100.0 * draw(st.sampled_from([-1.0, 1.0]))
         c["xf"]["f"] = float("%.4g" % (10.0 ** lg))
     elif fam == "N":
         c["xf"]["num"] = draw(renumbering(m))
@@ -670,8 +681,7 @@ def punch_block(exprs):
 
 
 SELOUT = "SELECTED_OUTPUT 1\n -reset false\n -simulation true\n -state true\n -solution true\n -step true"
-import os as _os
-KNOBS = "KNOBS\n -convergence_tolerance %s\n -iterations 400" % _os.environ.get("C15_TOL", "1e-13")
+KNOBS = "KNOBS\n -convergence_tolerance 1e-13\n -iterations 400"
 
 
 def render(m, spec, view, exprs):
